@@ -66,7 +66,7 @@ theorem zip3_map_thd {α β γ} (a : List α) (b : List β) (c : List γ) (h1 : 
 
 /-- SeriesAxis -/
 theorem series_mapping_roundtrip' (a : Series) : seriesFromMapping (seriesToMapping a) = a := by
-  simp [seriesFromMapping, seriesToMapping]
+  simp [seriesFromMapping, seriesToMapping, Nb.Gen.C18.seriesExponent]
 
 /-- ScalarAxis -/
 theorem scalar_mapping_roundtrip' (a : Scalar) (hv : a.mta.length = a.name.length) :
